@@ -17,3 +17,259 @@ Lemma resolve_existing eb ec em e :
 Proof.
   intros Hd He. destruct e, eb, ec; cbn in *; try discriminate; eauto.
 Qed.
+
+(* ---------------------------------------------------------------------- *)
+(* Part B: the file-system machine                                         *)
+(* ---------------------------------------------------------------------- *)
+
+(* fault-free execution, the states it passes through, and the (state, step)
+   pairs it executes *)
+Fixpoint run (l : list step) (fs : fsys) : option fsys :=
+  match l with
+  | [] => Some fs
+  | s :: l' => match effect fs s with None => None | Some fs' => run l' fs' end
+  end.
+Fixpoint reach (l : list step) (fs : fsys) : list fsys :=
+  fs :: match l with
+        | [] => []
+        | s :: l' => match effect fs s with None => [] | Some fs' => reach l' fs' end
+        end.
+Fixpoint pre_steps (l : list step) (fs : fsys) : list (fsys * step) :=
+  match l with
+  | [] => []
+  | s :: l' => match effect fs s with
+               | None => []
+               | Some fs' => (fs, s) :: pre_steps l' fs'
+               end
+  end.
+
+Lemma reach_head l fs : In fs (reach l fs).
+Proof. destruct l; cbn; auto. Qed.
+
+(* whatever the fault, the run ends in a state the fault-free run passes through *)
+Lemma exec_final_in_reach l : forall fs f, In (final_fs (exec l fs f)) (reach l fs).
+Proof.
+  induction l as [|s l IH]; intros fs f; [cbn; auto|].
+  cbn [exec reach].
+  destruct (fires fs s) eqn:Ef, f as [[|n]|]; cbn [final_fs fst]; try (left; reflexivity);
+    (destruct (effect fs s) as [fs'|] eqn:Ee; [|left; reflexivity]);
+    match goal with |- context [exec l fs' ?g] =>
+      specialize (IH fs' g); destruct (exec l fs' g) as [[a b] t]; cbn in *; right; exact IH end.
+Qed.
+
+Lemma exec_trace_incl l : forall fs f, incl (final_tr (exec l fs f)) (pre_steps l fs).
+Proof.
+  induction l as [|s l IH]; intros fs f; [cbn; intros x []|].
+  cbn [exec pre_steps].
+  destruct (fires fs s) eqn:Ef, f as [[|n]|]; cbn [final_tr snd]; try (intros x []);
+    (destruct (effect fs s) as [fs'|] eqn:Ee; [|intros x []]);
+    match goal with |- context [exec l fs' ?g] =>
+      specialize (IH fs' g); destruct (exec l fs' g) as [[a b] t]; cbn in *;
+      intros x [Hx|Hx]; [left; exact Hx|right; apply IH; exact Hx] end.
+Qed.
+
+Lemma exec_done_run l : forall fs f,
+  final_oc (exec l fs f) = Done -> run l fs = Some (final_fs (exec l fs f)).
+Proof.
+  induction l as [|s l IH]; intros fs f; [cbn; auto|].
+  cbn [exec run].
+  destruct (fires fs s) eqn:Ef, f as [[|n]|]; cbn [final_oc final_fs fst snd]; try discriminate;
+    (destruct (effect fs s) as [fs'|] eqn:Ee; [|cbn; discriminate]);
+    match goal with |- context [exec l fs' ?g] =>
+      specialize (IH fs' g); destruct (exec l fs' g) as [[a b] t]; cbn in *; exact IH end.
+Qed.
+
+Lemma exec_nofault l : forall fs fs',
+  run l fs = Some fs' -> exec l fs None = (fs', Done, pre_steps l fs).
+Proof.
+  induction l as [|s l IH]; intros fs fs' H; cbn in *; [congruence|].
+  destruct (effect fs s) as [fs1|] eqn:Ee; [|discriminate].
+  destruct (fires fs s); rewrite (IH _ _ H); reflexivity.
+Qed.
+
+Lemma exec_raised_fault l : forall fs f, final_oc (exec l fs f) = Raised -> f <> None.
+Proof.
+  induction l as [|s l IH]; intros fs f; [cbn; discriminate|].
+  cbn [exec].
+  destruct (fires fs s) eqn:Ef, f as [[|n]|]; cbn [final_oc fst snd]; try discriminate;
+    (destruct (effect fs s) as [fs'|] eqn:Ee; [|cbn; discriminate]);
+    match goal with |- context [exec l fs' ?g] =>
+      specialize (IH fs' g); destruct (exec l fs' g) as [[a b] t]; cbn in *; intros H;
+      try discriminate; try (apply IH in H; congruence) end.
+Qed.
+
+Lemma run_app l1 : forall l2 fs,
+  run (l1 ++ l2) fs = match run l1 fs with Some fs1 => run l2 fs1 | None => None end.
+Proof.
+  induction l1 as [|s l1 IH]; intros l2 fs; cbn; [reflexivity|].
+  destruct (effect fs s); [apply IH|reflexivity].
+Qed.
+
+Lemma reach_app_forall (P : fsys -> Prop) l1 : forall l2 fs,
+  Forall P (reach l1 fs) ->
+  (forall fs1, run l1 fs = Some fs1 -> Forall P (reach l2 fs1)) ->
+  Forall P (reach (l1 ++ l2) fs).
+Proof.
+  induction l1 as [|s l1 IH]; intros l2 fs H1 H2; cbn in *.
+  - apply H2. reflexivity.
+  - inversion H1 as [|x y Hx Hy]; subst. constructor; [exact Hx|].
+    destruct (effect fs s) as [fs'|]; [|constructor].
+    apply IH; [exact Hy|exact H2].
+Qed.
+
+Lemma pre_steps_app_forall (P : fsys * step -> Prop) l1 : forall l2 fs,
+  Forall P (pre_steps l1 fs) ->
+  (forall fs1, run l1 fs = Some fs1 -> Forall P (pre_steps l2 fs1)) ->
+  Forall P (pre_steps (l1 ++ l2) fs).
+Proof.
+  induction l1 as [|s l1 IH]; intros l2 fs H1 H2; cbn in *.
+  - apply H2. reflexivity.
+  - destruct (effect fs s) as [fs'|]; [|constructor].
+    inversion H1 as [|x y Hx Hy]; subst. constructor; [exact Hx|].
+    apply IH; [exact Hy|exact H2].
+Qed.
+
+(* the chunk loop: only computes and appends to one path *)
+Definition is_body (p : path) (s : step) : Prop :=
+  (exists k, s = SCompute k) \/ (exists k, s = SAppend p k).
+
+Definition body_rel (p : path) (fs x : fsys) : Prop :=
+  (forall q, path_eqb q p = false -> x q = fs q) /\
+  (x p = fs p \/ exists j, x p = Partial j).
+
+Lemma body_rel_refl p fs : body_rel p fs fs.
+Proof. split; auto. Qed.
+
+Lemma body_rel_step p fs x s x' :
+  body_rel p fs x -> is_body p s -> effect x s = Some x' -> body_rel p fs x'.
+Proof.
+  intros [Ho Hp] [[k ->]|[k ->]] He; cbn in He; inversion He; subst; clear He.
+  - split; auto.
+  - split.
+    + intros q Hq. unfold upd. rewrite Hq. apply Ho, Hq.
+    + right. exists (k + 1). unfold upd, path_eqb. now rewrite Z.eqb_refl.
+Qed.
+
+Lemma body_effect p x s : is_body p s -> exists x', effect x s = Some x'.
+Proof. intros [[k ->]|[k ->]]; cbn; eauto. Qed.
+
+Lemma body_run p body : Forall (is_body p) body -> forall fs x, body_rel p fs x ->
+  exists x', run body x = Some x' /\ body_rel p fs x'.
+Proof.
+  induction 1 as [|s body Hs Hb IH]; intros fs x Hx; cbn; [eauto|].
+  destruct (body_effect p x s Hs) as [x1 He]. rewrite He.
+  apply (IH fs x1). eapply body_rel_step; eauto.
+Qed.
+
+Lemma body_reach p body : Forall (is_body p) body -> forall fs x, body_rel p fs x ->
+  Forall (body_rel p fs) (reach body x).
+Proof.
+  induction 1 as [|s body Hs Hb IH]; intros fs x Hx; cbn; [auto|].
+  constructor; [exact Hx|].
+  destruct (body_effect p x s Hs) as [x1 He]. rewrite He.
+  apply IH. eapply body_rel_step; eauto.
+Qed.
+
+Lemma body_pre_steps p body : Forall (is_body p) body -> forall x,
+  Forall (fun e => is_body p (snd e)) (pre_steps body x).
+Proof.
+  induction 1 as [|s body Hs Hb IH]; intros x; cbn; [auto|].
+  destruct (effect x s); constructor; auto.
+Qed.
+
+Lemma batches_body p m B : Forall (is_body p) (batches p m B).
+Proof.
+  unfold batches. apply Forall_forall. intros s Hs.
+  apply in_flat_map in Hs. destruct Hs as [i [_ Hs]].
+  unfold batch_steps in Hs. apply in_app_or in Hs.
+  destruct Hs as [Hs|Hs]; apply in_map_iff in Hs; destruct Hs as [k [<- _]];
+    [left|right]; eauto.
+Qed.
+
+Lemma tag_eqb_refl t : tag_eqb t t = true.
+Proof. destruct t; cbn; rewrite ?Z.eqb_refl; reflexivity. Qed.
+
+Lemma is_complete_refl t : is_complete (Complete t) t = true.
+Proof. apply tag_eqb_refl. Qed.
+
+(* ---- compress_file ---- *)
+Definition others : list path := [PMeta; PBinTmp; PSBin; PSBinTmp; PSMeta].
+
+Definition cQ (r c : Z) (keep : bool) (fs0 x : fsys) : Prop :=
+  (x PCbin = fs0 PCbin \/ x PCbin = Complete (Comp r c)) /\
+  (x PBin = Complete (Orig r) \/
+   (keep = false /\ x PBin = Absent /\
+    x PCbin = Complete (Comp r c) /\ x PCh = Complete (Hdr r c))) /\
+  (forall q, In q others -> x q = fs0 q).
+
+Definition compress_tail (r c : Z) (keep chk : bool) : list step :=
+  [SClose PCbinTmp (Comp r c); SOpenW PCh; SDump PCh (Hdr r c)] ++
+  (if chk then [SVerify PCbinTmp PCh PBin r c] else []) ++
+  [SRename PCbinTmp PCbin] ++
+  (if keep then [] else [SUnlink PBin]).
+
+Lemma compress_steps_split r c m B keep chk :
+  compress_steps r c m B keep chk =
+  [SOpenW PCbinTmp] ++ batches PCbinTmp m B ++ compress_tail r c keep chk.
+Proof. reflexivity. Qed.
+
+Ltac fs_simpl :=
+  unfold upd, path_eqb; cbn [path_code Z.eqb Pos.eqb negb andb orb present is_complete];
+  rewrite ?tag_eqb_refl; cbn [andb orb negb].
+
+Ltac others_cases Hq := unfold others in Hq; cbn [In] in Hq;
+  repeat (destruct Hq as [Hq|Hq]; [subst; cbn [path_code Z.eqb Pos.eqb]|]); try contradiction.
+
+Ltac solve_cQ Hb Hc Hot :=
+  unfold cQ; cbn [path_code Z.eqb Pos.eqb]; rewrite ?Hb, ?Hc;
+  split; [auto|split; [auto 6|intros q Hq; rewrite <- (Hot q Hq); others_cases Hq; reflexivity]].
+
+Lemma compress_tail_reach r c keep chk fs0 fs2 :
+  fs0 PBin = Complete (Orig r) ->
+  (forall q, path_eqb q PCbinTmp = false -> fs2 q = fs0 q) ->
+  Forall (cQ r c keep fs0) (reach (compress_tail r c keep chk) fs2).
+Proof.
+  intros Hsrc Ho.
+  assert (Hb : fs2 PBin = Complete (Orig r)) by (rewrite Ho; auto).
+  assert (Hc : fs2 PCbin = fs0 PCbin) by (apply Ho; reflexivity).
+  assert (Hot : forall q, In q others -> fs2 q = fs0 q).
+  { intros q Hq. apply Ho. others_cases Hq; reflexivity. }
+  unfold compress_tail. destruct chk, keep; cbn [app reach effect]; fs_simpl; rewrite ?Hb; fs_simpl;
+  repeat first [apply Forall_nil | apply Forall_cons; [solve_cQ Hb Hc Hot|]
+               | progress (fs_simpl; rewrite ?Hb; fs_simpl)].
+Qed.
+
+(* what the fault-free tail ends in *)
+Lemma compress_tail_run r c keep chk fs2 :
+  fs2 PBin = Complete (Orig r) ->
+  exists fsf, run (compress_tail r c keep chk) fs2 = Some fsf /\
+    fsf PCbin = Complete (Comp r c) /\ fsf PCh = Complete (Hdr r c) /\
+    fsf PCbinTmp = Absent /\
+    fsf PBin = (if keep then Complete (Orig r) else Absent).
+Proof.
+  intros Hb. unfold compress_tail.
+  destruct chk, keep; cbn [app run effect]; repeat progress (fs_simpl; rewrite ?Hb);
+    eexists; (split; [reflexivity|]); cbn [path_code Z.eqb Pos.eqb]; rewrite ?Hb; auto.
+Qed.
+
+(* ordering inside the tail: the rename publishes a complete stream next to a
+   complete header; the source is unlinked only after that *)
+Definition c_order (r c : Z) (e : fsys * step) : Prop :=
+  let '(x, s) := e in
+  (s = SRename PCbinTmp PCbin ->
+     x PCbinTmp = Complete (Comp r c) /\ x PCh = Complete (Hdr r c) /\ x PBin = Complete (Orig r)) /\
+  (s = SUnlink PBin ->
+     x PCbin = Complete (Comp r c) /\ x PCh = Complete (Hdr r c) /\ x PCbinTmp = Absent).
+
+Lemma compress_tail_order r c keep chk fs2 :
+  fs2 PBin = Complete (Orig r) ->
+  Forall (c_order r c) (pre_steps (compress_tail r c keep chk) fs2).
+Proof.
+  intros Hb. unfold compress_tail.
+  destruct chk, keep; cbn [app pre_steps effect]; fs_simpl; rewrite ?Hb; fs_simpl;
+  repeat first [apply Forall_nil
+               | apply Forall_cons;
+                 [unfold c_order; split; intros Hs; try discriminate Hs;
+                  cbn [path_code Z.eqb Pos.eqb]; rewrite ?Hb; auto|]
+               | progress (fs_simpl; rewrite ?Hb; fs_simpl)].
+Qed.
